@@ -261,13 +261,38 @@ def generated_case(ctx, rng, idx):
         k = int(rng.integers(1, len(names)))
         fi = rng.permutation(len(names))[:k]
         cur = obj.parameters()
-        obj.fix_parameters({cur[i]: float(x[i]) for i in fi})
+        # the net fixed set is reached in one call or over several, before
+        # and / or after the sensitivities are switched on (a parameter may
+        # be fixed in between and released again)
+        how = ['fix_then_enable', 'enable_then_fix', 'enable_fix_fix',
+               'fix_enable_fix', 'enable_fix_swap'][int(rng.integers(5))]
+        feats['fix_history'] = how
+        ka = int(rng.integers(0, k + 1)) if how in (
+            'enable_fix_fix', 'fix_enable_fix') else k
+        part_a = {cur[i]: float(x[i]) for i in fi[:ka]}
+        part_b = {cur[i]: float(x[i]) for i in fi[ka:]}
+        others = [i for i in range(len(names)) if i not in set(fi)]
+        if how.startswith('enable'):
+            obj.enable_sensitivities(True)
+        if how == 'enable_fix_swap' and others:
+            # another parameter is fixed first and exchanged for the final
+            # ones in the next call
+            j = others[int(rng.integers(len(others)))]
+            obj.fix_parameters({cur[j]: float(x[j]) * 1.3})
+            part_a[cur[j]] = None
+        if part_a or not part_b:
+            obj.fix_parameters(part_a)
+        if how == 'fix_enable_fix':
+            obj.enable_sensitivities(True)
+        if part_b:
+            obj.fix_parameters(part_b)
         free[fi] = False
         if obj.parameters() != [p for p, f in zip(pub, free) if f]:
             ctx.violation('published_parameter_order', 'reduced_order',
                           {'chi': obj.parameters()}, feats)
     try:
-        obj.enable_sensitivities(True)
+        if not obj.has_sensitivities():
+            obj.enable_sensitivities(True)
         y2, s = obj.simulate(x[free], times)
     except Exception as e:      # noqa
         ctx.violation_exc('simulate_raises', e,
